@@ -22,7 +22,7 @@ from .C14 import gen_trans_gecko  # noqa: E402
 CFG = {
     "gen_hooks": [gen_sites, gen_sites_c04, gen_send_shape, gen_trans_varint, gen_trans_udpsize, gen_trans_gecko],
     "props_module": "Hy.Props.C03",
-    "extra_props_modules": ["Hy.Props.C03Speedtest"],
+    "extra_props_modules": ["Hy.Props.C03Speedtest", "Hy.Props.C03ClientUdp"],
     # C03 is about crashes: of the borrowed components' oracles only the panic clauses count here
     # (their other clauses are decided by the owning property's check)
     "oracle_filter_re": r"(?i)panic|runtime error|index out of range|slice bounds|nil pointer|fault|crash|allocat",
@@ -31,6 +31,8 @@ CFG = {
     "level": "proof",
     "streams": [
         {"mod": "extras", "component": "speedtest", "driver": "speedtest", "n": {"quick": 3000, "thorough": 100000}},
+        # replies arriving at a client: the real client udpSessionManager (feed / Close / receive-loop exit, and feeds racing a Close)
+        {"mod": "core", "component": "cudp", "driver": "cudp", "reset_re": "^reset", "n": {"quick": 4000, "thorough": 100000}},
         # the decoders owned by other properties, re-run here with their malformed/mutated streams (panic oracle + differential)
         {"mod": "core", "component": "frag", "driver": "frag", "compare": "panic-only", "n": {"quick": 3000, "thorough": 100000}},
         {"mod": "core", "component": "defrag", "driver": "defrag", "reset_re": "^reset", "compare": "panic-only", "n": {"quick": 6000, "thorough": 200000}},
